@@ -1917,6 +1917,145 @@ def run_prepare_corr(ctx, rng, nsys):
     ctx.cov["input_distribution"]["prepare_decision_cases"] = len(rows)
 
 
+# ---- the propagator route, compared AFTER all propagators were requested ----
+PROP_METHODS = ["adams", "bdf", "lsoda", "dop853", "vern7", "vern9", "diag"]
+PROP_DTYPES = ["dense", "csr", "dia"]
+PROP_STYLES = ["object-increasing", "object-repeated", "function-tlist"]
+
+
+def check_propagator_route(sysd, kind, method, dtype, style, td=False):
+    """Every propagator handed to the caller is kept; only after ALL of them
+    have been requested are they compared with expm (or DOP853 for H(t)) at
+    their own times, with a snapshot taken when they were returned, and -
+    applied to the initial state - with the state route of sesolve / mesolve."""
+    import qutip
+    import scipy.linalg as sl
+    from scipy.integrate import solve_ivp
+    N = sysd["N"]
+    times = [t - sysd["tlist"][0] for t in sysd["tlist"][1:]][:4]
+    times = sorted(set(round(t, 6) for t in times if t > 0))
+    Hm, H1m = sysd["H"], sysd["H1"]
+    w = 1.5
+    with qutip.CoreOptions(default_dtype=dtype):
+        H = qutip.Qobj(Hm).to(dtype)
+        if td:
+            H = qutip.QobjEvo([H, [qutip.Qobj(H1m).to(dtype), lambda t: np.cos(w * t)]])
+        cops = [qutip.Qobj(c).to(dtype) for c in sysd["cops"]] if kind == "me" else []
+        opts = {k: v for k, v in _opts(method).items() if k not in ("normalize_output", "progress_bar")}
+        kept = []            # (time, returned object, snapshot at return)
+        if style == "function-tlist":
+            outs = qutip.propagator(H, [0.0] + times, c_ops=cops or None, options=opts)
+            for t, U in zip([0.0] + times, outs):
+                kept.append((t, U, U.full().copy()))
+        else:
+            P = qutip.Propagator(H, c_ops=cops or None, options=opts)
+            order = list(times)
+            if style == "object-repeated" and len(times) >= 2:
+                order = [times[1], times[0], times[1]] + times[2:] + [times[0], times[-1]]
+            for t in order:
+                U = P(t)
+                kept.append((t, U, U.full().copy()))
+    # references
+    if kind == "se":
+        dim = N
+
+        def gen(t):
+            return -1j * (Hm + (np.cos(w * t) * H1m if td else 0))
+    else:
+        dim = N * N
+        I = np.eye(N)
+
+        def gen(t):
+            Ht = Hm + (np.cos(w * t) * H1m if td else 0)
+            L = -1j * (np.kron(I, Ht) - np.kron(Ht.T, I))
+            for c in sysd["cops"]:
+                cd = c.conj().T @ c
+                L = L + np.kron(c.conj(), c) - 0.5 * np.kron(I, cd) - 0.5 * np.kron(cd.T, I)
+            return L
+    refs = {}
+    if td:
+        sol = solve_ivp(lambda t, y: (gen(t) @ y.reshape(dim, dim)).reshape(-1), (0, max(times)),
+                        np.eye(dim, dtype=complex).reshape(-1), method="DOP853", t_eval=times,
+                        rtol=1e-12, atol=1e-14)
+        for k, t in enumerate(times):
+            refs[t] = sol.y[:, k].reshape(dim, dim)
+    else:
+        for t in times:
+            refs[t] = sl.expm(gen(0.0) * t)
+    refs[0.0] = np.eye(dim, dtype=complex)
+    bad = []
+    for k, (t, U, snap) in enumerate(kept):
+        now = U.full()
+        tol = (1e-9 if kind == "se" else 2e-7) if method == "diag" else 4 * _htol(method, False, refs[t])
+        if not np.array_equal(now, snap):
+            bad.append(("returned-propagator-changed-later",
+                        "%s propagator (%s, default_dtype=%s, %s): the object returned for t=%g (request %d of %d) "
+                        "changed after later requests by %.2e; error vs exact now %.2e"
+                        % (kind, method, dtype, style, t, k + 1, len(kept),
+                           np.linalg.norm(now - snap), np.linalg.norm(now - refs[t]))))
+            break
+        err = np.linalg.norm(now - refs[t])
+        if not err <= tol:
+            bad.append(("propagator-vs-exact",
+                        "%s propagator (%s, default_dtype=%s, %s): U(%g) (request %d of %d), compared after all "
+                        "requests, differs from the exact propagator by %.2e"
+                        % (kind, method, dtype, style, t, k + 1, len(kept), err)))
+            break
+    if not bad and not td:
+        # route agreement: kept propagators applied to the initial state vs the state route
+        psi = sysd["psi"].reshape(N, 1)
+        tl = [0.0] + times
+        if kind == "se":
+            st = qutip.sesolve(qutip.Qobj(Hm), qutip.Qobj(psi), tl,
+                               options=_opts("vern9", {"store_states": True})).states
+            vec0 = psi
+        else:
+            rho0 = psi @ psi.conj().T
+            st = qutip.mesolve(qutip.Qobj(Hm), qutip.Qobj(rho0), tl, c_ops=[qutip.Qobj(c) for c in sysd["cops"]],
+                               options=_opts("vern9", {"store_states": True})).states
+            vec0 = rho0.reshape(-1, 1, order="F")
+        for t, U, _ in kept:
+            ref = st[tl.index(t)].full()
+            ref = ref if kind == "se" else ref.reshape(-1, 1, order="F")
+            err = np.linalg.norm(U.full() @ vec0 - ref)
+            if not err <= 8 * _htol(method, False, ref):
+                bad.append(("propagator-vs-state-route",
+                            "%s propagator (%s, %s, %s) applied to the initial state differs from the "
+                            "state route at t=%g by %.2e" % (kind, method, dtype, style, t, err)))
+                break
+    return bad
+
+
+def run_propagator_oracle(ctx, rng, nsys):
+    n = 0
+    for i in range(nsys):
+        sysd = gen_system(rng, rng.choice([2, 3]))
+        for kind in ("se", "me"):
+            for mi, method in enumerate(PROP_METHODS):
+                for di, dtype in enumerate(PROP_DTYPES):
+                    for si, style in enumerate(PROP_STYLES):
+                        tds = [False]
+                        if method != "diag" and (mi + di + si + i) % 4 == 0:
+                            tds.append(True)
+                        for td in tds:
+                            key = [kind, method, dtype, style, "H(t)" if td else "const"]
+                            try:
+                                bad = check_propagator_route(sysd, kind, method, dtype, style, td)
+                            except Exception as e:      # noqa
+                                bad = [("raises", "%s: %s" % (type(e).__name__, str(e)[:300]))]
+                            n += 1
+                            ctx.count_case(("propagator", tuple(key), json.dumps(sys_to_json(sysd), sort_keys=True)),
+                                           nontrivial=True)
+                            for sig, what in bad:
+                                ctx.violation("oracle:propagator-route", key + [sig], what,
+                                              {"kind": "propagator_route", "solver": kind, "method": method,
+                                               "dtype": dtype, "style": style, "td": td,
+                                               "system": sys_to_json(sysd)}, found_input=True)
+    ctx.cov["input_distribution"]["propagator_route_runs"] = {
+        "runs": n, "methods": PROP_METHODS, "default_dtype": PROP_DTYPES, "styles": PROP_STYLES}
+    ctx.log("propagator-route oracle: %d sessions (method x default_dtype x call style; compared after all requests)" % n)
+
+
 # ---- time scales and non-uniform time lists -----------------------------
 SCALES = [1e-9, 1e-6, 1e-3, 1.0, 1e3, 1e6]
 
@@ -2279,6 +2418,7 @@ def run(ctx):
     krylov_identity_witness(ctx)
     run_history_oracle(ctx, rng, 1 if ctx.quick else 6)
     run_timescale_oracle(ctx, rng, 1 if ctx.quick else 5)
+    run_propagator_oracle(ctx, rng, 1 if ctx.quick else 3)
     run_prepare_corr(ctx, rng, 1 if ctx.quick else 4)
     run_stateform_oracle(ctx, rng, 1 if ctx.quick else 4)
     ctx.cov["explanation"] = (
@@ -2339,6 +2479,10 @@ def replay(ctx, payload):
                 sg = payload["signature"]
                 ctx.violation(payload["site"], (sg[:-1] if isinstance(sg, list) else [d["method"]]) + [sig],
                               what, d)
+    elif kind == "propagator_route":
+        sysd = sys_from_json(d["system"])
+        for sig, what in check_propagator_route(sysd, d["solver"], d["method"], d["dtype"], d["style"], d["td"]):
+            ctx.violation(payload["site"], payload["signature"][:-1] + [sig], what, d)
     elif kind == "stateform":
         import qutip
         sysd = sys_from_json(d["system"])
